@@ -122,24 +122,61 @@ HARNESSES = [
              '(decode_next_header stand-in reports exhausted input afterwards); loops unwound 20 times with unwinding assertions',
       trusted=['set_codes: recording stub (verdict unconstrained); table builders make_inflate_huff_code_*, set_and_expand_lit_len_huffcode: '
                'frame-only ASSUMED contracts; decode_next_header: bounded stand-in; header_matches_pregen stubbed to 0 (contracts/stubs_inflate.h)']),
+] + [
+    H('mk_table_%s_%s' % (fn, part), ['C02', 'C06'] if part == 'q' else [], 'igzip/inflate_tables.c', INF,
+      defines=['INF_TABLES'] + (['TB_DIST'] if fn == 'dist' else []), entry='h_mk_%s' % part,
+      functions=['make_inflate_huff_code_%s' % fn], also=['C05'] if part == 'q' else ['C02', 'C06'],
+      tier='quick' if part == 'q' else 'thorough', timeout=7200, kind='bounded', unwind=40, expect=['assertion'],
+      min_obligations=5, object_bits=11 if part != 'q' else 9,
+      properties=[r'^tb_run_%s\.' % fn, r'^make_inflate_huff_code_%s\.' % fn, r'^set_codes\.', r'^bit_reverse2\.', r'^write_huff_code\.'],
+      replay=('inflate_parts.c', 'mk_tables'),
+      bounds='literal code-length vectors, symbols at table positions 0, 1, last: ' + txt + '; ghost lookup indices symbolic; '
+             'exhaustive sweep of all <= 3-symbol vectors is the native battery mk_tables --search')
+    for fn in ('dist', 'header')
+    for part, txt in (('q', '11 vectors over {1,11,12} (short/long boundary, incomplete long groups)'),
+                      ('pairs', '64 two-symbol vectors over {0,1,2,5,10,11,12,15}'),
+                      ('triples', '64 three-symbol vectors over {1,11,12,14}'))
+] + [
+    H('set_and_expand_q', ['C02', 'C06'], 'igzip/inflate_tables.c', INF, defines=['INF_TABLES'], entry='h_expand_q',
+      functions=['set_and_expand_lit_len_huffcode'], also=['C05'], timeout=1200, kind='bounded', unwind=600, expect=['assertion'],
+      min_obligations=5, object_bits=9,
+      properties=[r'^tl_run\.', r'^set_and_expand_lit_len_huffcode\.', r'^bit_reverse2\.', r'^write_huff_code\.'],
+      replay=('inflate_parts.c', 'mk_tables'),
+      bounds='8 literal code-length vectors over the symbols {0, 65, 256, 257, 265, 284} (complete / incomplete / long codes / code+extra across '
+             'the 12-bit boundary / all 15 / over-subscribed); ghost symbol and extra value symbolic; broad sweep: native battery mk_tables --search'),
+    H('setup_static_header_args', ['C02'], 'igzip/inflate_hdr.c', INF, enforce='setup_static_header', entry='h_setup_static_header',
+      replace=['memcpy'], defines=['INF_STATIC', 'INF_MEMCPY_REC'], also=['C05', 'C15'], timeout=600, object_bits=8,
+      expect=['postcondition', 'assigns', 'precondition'], replay=('inflate_parts.c', 'static_tables'),
+      trusted=['memcpy: recording stub (arguments + memory safety of the two table copies proved, copy semantics assumed); '
+               'the copied contents are proved in the thorough harness setup_static_header']),
+    H('setup_static_header', ['C02'], 'igzip/inflate_hdr.c', INF, enforce='setup_static_header', defines=['INF_STATIC'], tier='thorough',
+      also=['C05', 'C15'], timeout=7200, object_bits=8, expect=['postcondition', 'assigns'], replay=('inflate_parts.c', 'static_tables'),
+      trusted=['contents of static_lit_huff_code / static_dist_huff_code vs RFC 1951 3.2.6: native check replay/inflate_parts.c static_tables']),
 ]
+
 
 PROP_TEXT = {
     'C02': {
         'assumptions': [
             'bit reader / read_header / decode_literal_block: the caller owns exactly avail_in input and avail_out output bytes '
-            '(is_fresh), avail_in <= 2^32-9 (see possible defect: uint32 wrap of avail_in + buffered bytes)',
+            '(is_fresh); every avail_in (the two 32-bit wrap defects are fixed in /repo fdffa6b, 4feec5d; no bound on avail_in remains)',
             'WF_inflate_bits: -64 <= read_in_length <= 64, negative only with avail_in == 0, bits of read_in above '
             'read_in_length are a subset of the not yet consumed input bits (invariant of the 64-bit fast refill path; '
             're-established by every contracted operation)',
             'read_header: setup_static_header / setup_dynamic_header replaced by frame-only ASSUMED contracts',
             'set_codes: every code length <= 15 (instantiated per visited entry), table_length one of the call-site constants 19/30/32',
             'byte_copy: bounded stand-ins only (length <= 16 any distance; length <= 258 with distance 1..4)',
+            'setup_static_header: default build = pre-generated tables of igzip/static_inflate.h are copied; their contents are checked against '
+            'RFC 1951 3.2.6 natively (replay/inflate_parts.c static_tables), not by CBMC (dfcc havocs non-const statics)',
+            'table builders make_inflate_huff_code_dist/_header/_lit_len and set_and_expand_lit_len_huffcode: BOUNDED harnesses over literal '
+            'code-length vectors only (symbolic sizes/offsets of memset/memcpy on the result table are intractable); rfc_lookup_table extra-bit '
+            'counts are restored/assumed to their RFC values in these harnesses',
         ],
         'not_decided': [
             'end-to-end decoding of a stream (isal_inflate / isal_inflate_stateless state machines, tmp_out_buffer window)',
-            'make_inflate_huff_code_lit_len/_dist/_header (lookup-table construction, multi-symbol packing), '
-            'set_and_expand_lit_len_huffcode, decode_next_lit_len/_dist/_header',
+            'make_inflate_huff_code_lit_len/_dist/_header and set_and_expand_lit_len_huffcode for arbitrary code-length vectors '
+            '(only literal vectors by CBMC; exhaustive <= 3-symbol and random dense vectors by the native battery mk_tables); '
+            'decode_next_lit_len/_dist/_header',
             'setup_dynamic_header code-length decoding loop beyond one symbol (bounded stand-in, thorough tier)',
             'decode_huffman_code_block_stateless_base and the final input position in isal_inflate_stateless: other family (reg_igzip_decode.py)',
             'assembly decode kernels (decode_huffman_code_block_stateless via multibinary)',
@@ -160,7 +197,6 @@ PROP_TEXT = {
         'assumptions': [
             'CK_PRE: bytes are parked in tmp_in_buffer only by an earlier incomplete call of the same checker '
             '(tmp_in_size < trailer length, and tmp_in_size > 0 implies read_in_length < 8)',
-            'avail_in <= 2^32-9 (see possible defect in fixed_size_read: uint32 wrap of avail_in + tmp_in_size)',
             'memcpy modelled as a byte loop in the trailer harnesses (n <= 8 proved by unwinding assertion)',
             'crc32_gzip_refl / isal_adler32_bam1 are recorded uninterpreted functions (their _base twins: C04); '
             'the low half of isal_adler32_bam1 is reduced (< 65521)',
